@@ -7,7 +7,9 @@ snap=/tmp/st_repo
 git -C /repo worktree remove --force $snap 2>/dev/null
 git -C /repo worktree add -q --detach $snap HEAD || exit 2
 mkdir -p /tmp/selftest
-ls /verif/selftest/mutants/*.json | sed 's|.*/||; s|\.json||' | xargs -P $jobs -I{} sh -c "VERIF_REPO=$snap VERIF_NO_EVIDENCE=1 /verif/bin/govc selftest {} > /tmp/selftest/{}.log 2>&1"
+rm -f /tmp/selftest/*.log
+cp /verif/bin/govc /tmp/selftest/govc   # the engine can be rebuilt meanwhile
+ls /verif/selftest/mutants/*.json | sed 's|.*/||; s|\.json||' | xargs -P $jobs -I{} sh -c "VERIF_REPO=$snap VERIF_NO_EVIDENCE=1 /tmp/selftest/govc selftest {} > /tmp/selftest/{}.log 2>&1"
 git -C /repo worktree remove --force $snap
 grep -h "^selftest: [0-9]* mutants" /tmp/selftest/*.log
 grep -h "FAIL" /tmp/selftest/*.log
